@@ -162,6 +162,11 @@ func runVariant(v Variant, repo, verif string) variantResult {
 			res.Err = err.Error()
 			return
 		}
+		defer func() {
+			// the process-wide caches are keyed by SSA objects: let this variant's program be collected
+			core.ForgetProgram(prog)
+			core.ResetCaches()
+		}()
 		findings, _ := core.LoadFindings(filepath.Join(verif, "known_findings.json"))
 		ctx := core.NewCtx(prog, v.Property, "selftest", findings)
 		spec.Run(ctx)
@@ -206,7 +211,7 @@ func selftest(only, repo, verif string) int {
 		}
 	}
 	results := make([]variantResult, len(sel))
-	sem := make(chan struct{}, 6)
+	sem := make(chan struct{}, 2)
 	var wg sync.WaitGroup
 	for i := range sel {
 		wg.Add(1)
@@ -255,7 +260,7 @@ func selftestFor(id, repo, verif string) map[string]any {
 		}
 	}
 	results := make([]variantResult, len(sel))
-	sem := make(chan struct{}, 5)
+	sem := make(chan struct{}, 2)
 	var wg sync.WaitGroup
 	for i := range sel {
 		wg.Add(1)
